@@ -165,7 +165,17 @@ def _stress_target(base, nproc, nupd):
         from toasty.image import ImageMode
         pio = PyramidIO(base, default_format="npy")
 
+        barrier = mp.Barrier(nproc)
+
         def work():
+            # first an update that contributes nothing (an input whose piece of this tile is entirely undefined): if the tile does not
+            # exist yet it still does not afterwards — and nothing about "it was absent" may be remembered for the next update
+            with pio.update_image(Pos(2, 1, 3), masked_mode=ImageMode.F32, default="masked") as basis:
+                pass
+            try:
+                barrier.wait(20)            # every process has seen the tile absent before any of them writes it
+            except Exception:
+                pass
             for _ in range(nupd):
                 with pio.update_image(Pos(2, 1, 3), masked_mode=ImageMode.F32, default="masked") as basis:
                     a = basis.asarray()
